@@ -84,8 +84,7 @@ def physMonth (i : Inp α) (kind : Kind) (x : Var → α) (m : Nat) : List (Exce
      else [ex "meat-total" m (cum (meatUse i x) m - i.meatSummed),
            -- `maxCulled` is the running slaughter total the pipeline hands over (checked per instance against
            -- the cumulative sum of the slaughter series): meat is never eaten before it is slaughtered
-           ex "meat-cumulative" m (cum (meatUse i x) m - at' i.maxCulled m),
-           ex "meat-monthly-cap" m (meatUse i x m - at' i.maxCulled m)])
+           ex "meat-cumulative" m (cum (meatUse i x) m - at' i.maxCulled m)])
    else []) ++
   -- monthly output caps
   (if i.addScp then [ex "scp-monthly" m (scpUse i x m - at' i.scp m)] else []) ++
@@ -96,7 +95,10 @@ def physMonth (i : Inp α) (kind : Kind) (x : Var → α) (m : Nat) : List (Exce
      ex "seaweed-wet-le-density" m (x (.mv .swWet m) - i.maxDensity * at' i.builtArea m),
      ex "seaweed-area-ge-initial" m (i.initialBuiltArea - x (.mv .usedArea m)),
      ex "seaweed-area-le-built" m (x (.mv .usedArea m) - at' i.builtArea m)] ++
-    (if m = 0 then exEq "seaweed-wet0" 0 (x (.mv .swWet 0)) i.initialSeaweed
+    (if m = 0 then
+       -- the farm starts at its initial stock and nothing can be harvested before it has grown
+       exEq "seaweed-wet0" 0 (x (.mv .swWet 0)) i.initialSeaweed ++
+       [ex "seaweed-harvest0" 0 (x (.mv .swHumans 0) + x (.mv .swFeed 0) + x (.mv .swBiofuel 0))]
      else exEq "seaweed-ledger" m (x (.mv .swWet m)) (seaweedLedger i x m))
    else []) ++
   -- feed and biofuel totals
